@@ -9,8 +9,8 @@ PROPS_FILE = "C07.v"
 BACKENDS = [("inplace", [0]), ("ir", [0, 2]), ("bc", [0, 2]), ("jit", [0, 2])]
 BUDGETS_QUICK = [0, 1, 2, 3, 5, 8, 13, 40, 200, 5000, 1 << 62]
 BUDGETS_THOROUGH = list(range(0, 13)) + [16, 20, 24, 32, 50, 100, 255, 256, 257, 1000, 5000, 65536, 1 << 32, 1 << 62]
-COUNTS_QUICK = {"runwalk": 50, "emptyspin": 40, "tailloop": 40, "ifnest": 40, "uniform": 120, "macro": 60, "affine": 60, "diverge": 40, "roam": 10}
-COUNTS_THOROUGH = {"runwalk": 250, "emptyspin": 200, "tailloop": 200, "ifnest": 200, "uniform": 500, "macro": 200, "affine": 200, "diverge": 80, "roam": 40}
+COUNTS_QUICK = {"jmpsweep": 45, "runwalk": 50, "emptyspin": 40, "tailloop": 40, "ifnest": 40, "uniform": 120, "macro": 60, "affine": 60, "diverge": 40, "roam": 10}
+COUNTS_THOROUGH = {"jmpsweep": 150, "runwalk": 250, "emptyspin": 200, "tailloop": 200, "ifnest": 200, "uniform": 500, "macro": 200, "affine": 200, "diverge": 80, "roam": 40}
 BIG = 1 << 62
 
 
